@@ -96,7 +96,7 @@ let after_tree (u : Float64.t expr) (toks : Float64.t token list option) (b : Bu
   (match toks with
    | Some ts ->
      (match f_parser ts with
-      | Ok e when e = folded -> ()
+      | Ok e when expr_str e = expr_str folded -> ()
       | _ -> Buffer.add_string b " ; INCONSISTENT parser differs from fold of parse_unfolded")
    | None -> ());
   Buffer.add_string b (" ; fold " ^ expr_str folded);
